@@ -457,6 +457,7 @@ func cuidFamily(t *testing.T, r *run) {
 	d := &cuidDriver{r: r}
 	burst := r.argInt("burst", 600)
 	burstCoq := r.argInt("burstcoq", 1) == 1
+	only := r.arg("only", "")
 	macs := [][6]byte{{}, {0xff, 0xff, 0xff, 0xff, 0xff, 0xff}, {2, 4, 6, 8, 10, 12}, {0x00, 0x1b, 0x44, 0x11, 0x3a, 0xb7}}
 	randMac := func() [6]byte {
 		if r.rng.IntN(3) == 0 {
@@ -469,6 +470,23 @@ func cuidFamily(t *testing.T, r *run) {
 		return m
 	}
 	ms := func(n int64) time.Time { return refDate.Add(time.Duration(n) * time.Millisecond) }
+	burstScenario := func() {
+		// many calls while the clock stands still: the counter crosses 255
+		// (and 65535 when burst allows) without any help from the hooks
+		d.bubble(t, func() {
+			sleepTo(ms(94644000000 + 12345))
+			d.set(0, 0, macs[3])
+			d.coqOff = !burstCoq
+			for i := 0; i < burst; i++ {
+				d.call("burst")
+			}
+			d.coqOff = false
+		})
+	}
+	if only == "burst" {
+		burstScenario()
+		return
+	}
 
 	// 1. the machine's own address and state as the package initialised them
 	d.bubble(t, func() {
@@ -555,17 +573,8 @@ func cuidFamily(t *testing.T, r *run) {
 		})
 	}
 
-	// 5. many calls while the clock stands still: the counter crosses 255
-	// (and 65535 when burst allows) without any help from the hooks
-	d.bubble(t, func() {
-		sleepTo(ms(94644000000 + 12345))
-		d.set(0, 0, macs[3])
-		d.coqOff = !burstCoq
-		for i := 0; i < burst; i++ {
-			d.call("burst")
-		}
-		d.coqOff = false
-	})
+	// 5. many calls in one millisecond
+	burstScenario()
 
 	// 6. observation outside the property's scope: the clock goes back to a
 	// millisecond that was used before (a new bubble starts in 2000 again)
@@ -699,6 +708,10 @@ func idStatsFamily(t *testing.T, r *run) {
 			t.Fatal(err)
 		}
 		raw, err := base64.StdEncoding.DecodeString(id)
+		if err != nil {
+			// which of the two base64 alphabets is used is for the model comparison to say
+			raw, err = base64.URLEncoding.DecodeString(id)
+		}
 		if err != nil || len(raw) != 16 || len(id) != 24 {
 			bad++
 			continue
